@@ -9,6 +9,7 @@ import json, os, re, shutil, subprocess, sys, tempfile, time
 prop, var = sys.argv[1], sys.argv[2]
 extra = sys.argv[3:]
 BASE = os.environ.get("SEED_BASE", "/tmp/seedR")
+TAG = os.environ.get("SEED_TAG", "")
 src = f"{BASE}/{prop}/out"
 patch, demo, metatxt = f"{src}/{var}.diff", f"{src}/{var}_demo.py", f"{src}/{var}_meta.txt"
 for f in (patch, demo):
@@ -48,10 +49,10 @@ try:
         inc = re.findall(r"INCONCLUSIVE property=\S+ reason=(.{0,200})", p.stdout)
         results[c] = {"verdict": {0: "held", 1: "ALARM", 2: "inconclusive"}.get(p.returncode, "?"), "wall_s": round(time.monotonic() - t0, 1), "kinds": kinds[:5], "inconclusive": inc[:2]}
         print(c, results[c])
-    out = f"/verif/refactorings/{prop}_{var}"
+    out = f"/verif/refactorings/{prop}_{TAG}{var}"
     os.makedirs(out, exist_ok=True)
     shutil.copy(patch, out + "/patch.diff"); shutil.copy(demo, out + "/demo.py")
-    meta = {"property": prop, "variant": var, "kind": "property-preserving refactoring (expected verdict: held)",
+    meta = {"property": prop, "variant": TAG + var, "kind": "property-preserving refactoring (expected verdict: held)",
             "source": "independent sub-agent given only the property text and a scratch worktree",
             "description": open(metatxt).read() if os.path.exists(metatxt) else "", "confirmed_by_me": ran,
             "checks": [prop] + extra, "check_results_at_ingest": results}
